@@ -18,6 +18,7 @@ import vcommon as V
 sys.path.insert(0, os.path.join(V.VERIF, "translator"))
 sys.path.insert(0, os.path.join(V.VERIF, "gen"))
 import c16_ser as TS  # noqa
+import c16_fields as TF  # noqa
 import C16_grammars as G  # noqa
 
 
@@ -172,6 +173,13 @@ def run(ctx):
         ctx.violation("translator", {"what": "T-ser can no longer read the serialize() bodies / constants", "error": repr(e)},
                       no_input=True)
         return
+    try:
+        fside = TF.generate()
+    except Exception as e:
+        ctx.note("field translator failed: %r" % (e,))
+        ctx.violation("translator", {"what": "T-ser-fields can no longer read the class headers / serialize() bodies", "error": repr(e)},
+                      no_input=True)
+        return
     unparsed = [c for c in side["classes"] if c["unparsed"]]
     unknown = [c["name"] for c in side["classes"] if c["unknown_types"]]
     ctx.coverage["ser_classes"] = len(side["classes"])
@@ -187,7 +195,9 @@ def run(ctx):
     hunparsed = [h for h in side["helper_pairs"] if h["unparsed"]]
     ctx.coverage["ser_helper_pairs"] = [h["name"] for h in side["helper_pairs"]]
     ctx.coverage["ser_helper_pairs_unparsed"] = {h["name"]: h["unparsed"] for h in hunparsed}
-    nparsed = len(side["classes"]) - len(unparsed) + len(side["containers"]) - len(cunparsed) + len(side["helper_pairs"]) - len(hunparsed)
+    ctx.coverage["ser_field_members"] = sum(len(c["fields"]) for c in fside["classes"])
+    ctx.coverage["ser_enum_members"] = sum(len(c["enums"]) for c in fside["classes"])
+    nparsed = len(fside["classes"]) + 3 + len(side["classes"]) - len(unparsed) + len(side["containers"]) - len(cunparsed) + len(side["helper_pairs"]) - len(hunparsed)
     # 3. prove
     ok, out, failed = ctx.prove(["Base", "Gen", "C16"],
                                 ["theories/C16/Properties_C16.vo", "theories/C16/Extract_C16.vo"],
@@ -267,6 +277,33 @@ def run(ctx):
     if hfail:
         ctx.note("store/load helper pairs failing their obligation: %s" % hfail)
     asym = asym + tasym + hfail
+    # field coverage: members neither transferred nor listed; open entries of the defect list (F62)
+    _, fl, _ = run_bin(xm, ["fields"])
+    fline = fl[0] if fl else ""
+    mf = re.search(r"uncovered=\[([\d:,]*)\] open=\[([\d:,]*)\] precise=(\w+) enums=(\w+)", fline)
+    cname = {v: k for k, v in fside["crc"].items()}
+    def fname(pair):
+        c, m_ = (int(x) for x in pair.split(":"))
+        cn = cname.get(c, "?%d" % c)
+        for cl in fside["classes"]:
+            if cl["name"] == cn:
+                for f in cl["fields"]:
+                    if TS.crc(f["name"]) == m_:
+                        return "%s::%s [%s%s] %s" % (cn, f["name"], "S" if f["store"] else "-", "L" if f["load"] else "-", f["type"])
+        return "%s::?%d" % (cn, m_)
+    uncovered = [fname(x) for x in mf.group(1).split(",") if x] if mf else ["(model driver gave no answer)"]
+    open_gaps = [fname(x) for x in mf.group(2).split(",") if x] if mf else []
+    if mf and mf.group(3) != "true":
+        uncovered.append("(an entry of the reviewed table Fields16.v no longer names an untransferred member)")
+    if mf and mf.group(4) != "true":
+        uncovered += ["enum member %s::%s: store cast %s, load through %s cast to %s" % (c["name"], e["name"], e["store_cast"], e["load_tmp_type"], e["load_cast"])
+                      for c in fside["classes"] for e in c["enums"] if not TF.enum_ok(c, e)]
+    ctx.coverage["ser_fields_uncovered"] = uncovered
+    ctx.coverage["ser_field_gaps_open"] = open_gaps
+    if uncovered:
+        ctx.note("data members of serialisable classes neither transferred by serialize() in both directions nor listed in "
+                 "Fields16.v: %s" % uncovered)
+    asym = asym + uncovered
     ctx.coverage["ser_asymmetric"] = asym
     ctx.coverage["ser_abstract_checked_through_subclasses"] = opn
     if asym:
@@ -376,6 +413,48 @@ def run(ctx):
     ctx.coverage["spec_oracle_checked"] = len(agree) + len(diverging)
     ctx.note("engine: %d cases, %d divergences (%d attributed to F26), %.1fs" % (len(lines), len(diverging), f26_hits,
                                                                                time.time() - t0))
+    # ---- 5a''. truncated streams (T16_truncated_rejects): the loading side gets a prefix of the stream ---------------
+    tl, tfull = [], []
+    pick = [k for k in range(len(F26_WITNESS), len(lines)) if impl[k] == model[k] and " | " in impl[k] and " err " not in impl[k]]
+    ctx.rng.shuffle(pick)
+    for k in pick[:150 if ctx.tier == "quick" else 2000]:
+        bs = cases[k - len(F26_WITNESS)][1]
+        L = len(impl[k].split(" | ")[0].split()[1]) // 2 if impl[k].split(" | ")[0].split()[1] != "-" else 0
+        tail0 = len(re.search(r"((?:00)*)$", impl[k].split(" | ")[0].split()[1]).group(1)) // 2      # zero bytes at the end
+        cut = ctx.rng.choice([0, bs - 1, bs, max(0, L - bs), max(0, L - bs + 1), max(0, L - 1), max(0, L - tail0), max(0, L - tail0 - 1),
+                              ctx.rng.randrange(0, L + 1), bs * ctx.rng.randrange(0, L // bs + 1)])
+        tl.append(re.sub(r"^eng (\d+) 0 ", r"eng \1 c%d " % cut, lines[k]))
+        tfull.append((k, cut, L))
+    rct, timpl, terr = run_bin(xh, tl)
+    _, tmodel, _ = run_bin(xm, tl)
+    if rct != 0 or len(timpl) != len(tl):
+        ctx.violation("harness-crash", {"what": "engine harness crashed on a truncated stream", "rc": rct, "stderr": terr[-1000:],
+                                        "request": tl[len(timpl)] if len(timpl) < len(tl) else None})
+        return
+    trej = 0
+    for req, i, mo, (k, cut, L) in zip(tl, timpl, tmodel, tfull):
+        ctx.count()
+        back = i.split(" | ", 1)[1] if " | " in i else i
+        rejected = back == "err XSer_InStream_Read_LT_Req" or back == "err XSerializationException:XSer_InStream_Read_LT_Req"
+        trej += rejected
+        if rejected and cut < L:
+            ctx.distinct(req)
+        # Spec (the theorem's statement): rejected with XSer_InStream_Read_LT_Req, or the very items of the whole stream
+        spec_ok = rejected or back == impl[k].split(" | ", 1)[1]
+        if not spec_ok:
+            ctx.violation("truncated", {"request": req, "impl": i[-500:], "model": mo[-500:], "whole_stream_answer": impl[k][-300:],
+                                        "what": "a truncated stream is neither rejected with XSer_InStream_Read_LT_Req nor read as "
+                                                "the whole stream is: the loader silently returns different items"})
+            break
+        if i.replace(" err XSerializationException:", " err ") != mo:
+            ctx.violation("correspondence", {"request": req, "impl": i[-500:], "model": mo[-500:],
+                                             "what": "engine and model differ on a truncated stream although the engine's answer "
+                                                     "satisfies the Spec"}, no_input=True)
+            break
+    ctx.coverage["traces_validated_against_impl"] += len(tl)
+    ctx.coverage["input_distribution"]["engine_truncated_streams"] = len(tl)
+    ctx.coverage["input_distribution"]["engine_truncated_streams_rejected"] = trej
+    ctx.note("truncated streams: %d cases, %d rejected with XSer_InStream_Read_LT_Req, the others read as the whole stream" % (len(tl), trej))
     # ---- 5a'. object references: real store/load pools vs ModelObj16 --------------------------------------------
     olines = []
     for n in range(300 if ctx.tier == "quick" else 5000):
@@ -466,6 +545,7 @@ def run(ctx):
                                         "request": (preq + lv_req)[k] if k < len(preq) + len(lv_req) else None})
         return
     nogram, ninst, ninvalid, reser = 0, 0, 0, {}
+    f62_hits = []
     for (kind, g, ins), req, o in zip(pmeta, preq, pout):
         ctx.count()
         if o.startswith("nogrammar"):
@@ -481,6 +561,9 @@ def run(ctx):
             reser[mre.group(1)] = reser.get(mre.group(1), 0) + 1
         if inval:
             ctx.distinct(req)
+        if not good and open_gaps and kind == "xsd" and f62_attributed(xh, g, ins, why):
+            f62_hits.append(req)
+            continue
         if not good:
             ctx.violation("pool-divergence", {"request": req, "what": "restored pool differs from the original: " + why,
                                               "grammar": g, "instances": ins, "impl": o[:6000]})
@@ -521,6 +604,24 @@ def run(ctx):
     ctx.note("pool: %d grammars (%d rejected by loadGrammar), %d instances (%d with errors), %.1fs" % (
         len(preq), nogram, ninst, ninvalid, time.time() - t1))
     # ---- findings ------------------------------------------------------------------------------------------
+    # F62: XMLDateTime::serialize does not transfer fMilliSecond / fHasTime.  The fixed witness is replayed on every run.
+    _, o62, _ = run_bin(xh, [F62_WITNESS])
+    wit62 = bool(o62) and o62[0].startswith("ok ") and " | DIFF" in o62[0]
+    ctx.coverage["F62_witness_reproduced"] = wit62
+    ctx.coverage["F62_generated_grammars_attributed"] = len(f62_hits)
+    if wit62 or f62_hits:
+        txt = ("XMLDateTime::serialize() transfers neither fMilliSecond nor fHasTime: a date/time facet or enumeration value with "
+               "fractional seconds loses them in the restored pool, so the restored pool gives another verdict (witness: dateTime "
+               "maxInclusive 2000-01-01T00:00:00.5, instance ...00.3 is valid against the original pool and rejected against the "
+               "restored one%s; %d generated schemas attributed by the counterfactual `same schema without the fractions "
+               "agrees`; field coverage reports the members open: %s)" % ("" if wit62 else " - NOT reproduced this run", len(f62_hits),
+                                                                            [g_.split(" ")[0] for g_ in open_gaps]))
+        if ctx.find_known("F62") and open_gaps:
+            ctx.known_finding("F62", txt)
+        else:
+            ctx.violation("F62", {"request": F62_WITNESS if wit62 else f62_hits[0], "impl": (o62[0][:600] if o62 else None), "what": txt})
+    elif open_gaps:
+        ctx.note("field coverage lists %s as untransferred but the F62 witness does not reproduce" % open_gaps)
     wit_hit = impl[0] != model[0]
     if wit_hit or f26_hits or pool26.get("reproduced"):
         txt = ("XSerializeEngine::read(XMLByte*, len) leaves fBufCur at the start of the buffer it just consumed when the bytes "
@@ -550,6 +651,23 @@ def run(ctx):
                             "valid and invalid instances; non-trivial = at least one instance reports a validation error; "
                             "distinct by request text")
     ctx.coverage["exhaustive"] = False
+
+
+F62_SCHEMA = ('<xs:schema xmlns:xs="http://www.w3.org/2001/XMLSchema"><xs:simpleType name="t"><xs:restriction base="xs:dateTime">'
+              '<xs:maxInclusive value="2000-01-01T00:00:00.5"/></xs:restriction></xs:simpleType><xs:element name="r" type="t"/></xs:schema>')
+F62_WITNESS = "pool xsd cmp %s %s" % (hx(F62_SCHEMA), " ".join(hx(i) for i in (
+    "<r>2000-01-01T00:00:00.3</r>", "<r>2000-01-01T00:00:00.7</r>", "<r>2000-01-01T00:00:00</r>")))
+FRAC_VALUE = re.compile(r'(value="[^"]*?\d\d:\d\d:\d\d)\.\d+')
+
+
+def f62_attributed(xh, g, ins, why):
+    """exact attribution of a pool divergence to F62: only instance verdicts differ, the schema has date/time facet values
+    with fractional seconds, and the very same request with the fractions removed from those facet values agrees"""
+    if why != "validation of an instance differs" or not FRAC_VALUE.search(g):
+        return False
+    g2 = FRAC_VALUE.sub(lambda m: m.group(1), g)
+    _, o, _ = run_bin(xh, ["pool xsd cmp %s %s" % (hx(g2), " ".join(hx(i) for i in ins))])
+    return bool(o) and pool_line_ok(o[0])[0]
 
 
 def pool_line_ok(o):
